@@ -272,6 +272,22 @@ func (e *exitInv) After(m *Machine, a *Action, o Outcome) error {
 		}
 	}
 
+	// ---- holds placed by the harness as a second AVS: never lost, and they keep the record pending
+	if o.ExtHoldRefused {
+		return violation("C03.I3.hold-lost", "the release of a hold that was placed on a pending record and never released was refused: %s", o.Note)
+	}
+	for k, n := range m.ExtHolds {
+		if n <= 0 {
+			continue
+		}
+		u, ok := curRecs[k]
+		if !ok {
+			return violation("C03.I3.early-release", "record %q was released while %d hold(s) placed through the hold interface remain", k, n)
+		}
+		if u.Hold < uint64(n) {
+			return violation("C03.I3.hold-lost", "record %q carries hold count %d, but %d hold(s) were placed through the hold interface and not released", k, u.Hold, n)
+		}
+	}
 	// ---- (3) release timing and (4) exact credit, at block ends
 	released := map[string]*exitRec{}
 	for k, r := range e.model {
